@@ -5,10 +5,15 @@ CONSTANTS
   StaticKinds <- MC_Static
   Depth = 4
   ShallowDepth = 3
+  Media = {"mem"}
+  Sizes = {"small"}
+  BigSaves = 1
   Variant = "drift"
 INVARIANT TypeOK
 INVARIANT Stutter
 INVARIANT Idempotent
+INVARIANT SaveLoadOk
+INVARIANT MediumIndependent
 
 PROPERTY StutterStep
 CHECK_DEADLOCK FALSE
